@@ -398,6 +398,19 @@ def presentations(gens, radius):
                 g[i], g[j] = g[j], g[i]
                 out.append(g)
         return out
+    if radius == "star":
+        # dense presentations: every other generator multiplied by a chosen one (n of them), and the
+        # cumulative products g_0, g_0 g_1, g_0 g_1 g_2, ... -- generators that all overlap
+        out = []
+        for i in range(n):
+            out.append([gens[j] if j == i else mul(gens[j], gens[i]) for j in range(n)])
+        acc = []
+        cur = None
+        for j in range(n):
+            cur = gens[j] if cur is None else mul(cur, gens[j])
+            acc.append(cur)
+        out.append(acc)
+        return out
     if radius == "all":
         elems = expand(gens)       # index bit j <-> generator j
         out = []
